@@ -343,10 +343,76 @@ def law_trace(ch):
     ch.mark_nontrivial(bool(diag) and (gen.is_sparse(spec) or len(diag) >= 2))
 
 
+def law_fused_legs(ch):
+    """operands that carry an axis fused beforehand (contracted against a
+    partner built on the conjugate of that very index object, or left free)"""
+    import symmray as sr
+    from ..layout import fuse_layout
+
+    spec = ch.draw(gen.array_specs(ferm=False, syms=ALLSYMS, min_ndim=3,
+                                   max_ndim=4, max_size=2, allow_empty=False),
+                   "a")
+    a0 = gen.build(spec)
+    if not a0.blocks:
+        return
+    nd0 = a0.ndim
+    k = ch.integer(2, nd0 - 1, "k")
+    grp = list(ch.perm(nd0, "group"))[:k]
+    a = must(a0.fuse, tuple(grp), what="prefuse")
+    nd = a.ndim
+    fpos = fuse_layout(nd0, [grp])[0]
+    ncon = ch.integer(1, nd, "ncon")
+    axes_a = list(ch.perm(nd, "axes"))[:ncon]
+    symm = spec["symm"]
+    legs = [a.indices[i].conj() for i in axes_a]
+    nfree = ch.integer(0, 2, "nfree")
+    for q in range(nfree):
+        legs.append(gen.build_index(ch.draw(gen.index_specs(symm, max_size=2),
+                                            f"free{q}")))
+    order = list(ch.perm(len(legs), "order"))
+    legs = [legs[i] for i in order]
+    axes_b = [order.index(q) for q in range(ncon)]
+    duals = [l.dual for l in legs]
+    cms = [dict(l.chargemap) for l in legs]
+    if any(not cm for cm in cms):
+        return
+    sec0 = [ch.choice(sorted(cm), f"c{q}") for q, cm in enumerate(cms)]
+    qb = G.total(symm, sec0, duals)
+    secs = G.valid_sectors(symm, [sorted(cm) for cm in cms], duals, qb)
+    keep = ch.subset(secs, "bsectors", min_size=1) if len(secs) <= 10 else secs
+    rng = np.random.default_rng(ch.integer(0, 999, "bseed"))
+    blocks = {s_: rng.integers(-3, 4, size=[cm[c] for c, cm in zip(s_, cms)]
+                               ).astype("float64") for s_ in keep}
+    cls = type(a)
+    kw = {"symmetry": symm} if not cls.static_symmetry else {}
+    b = must(cls, indices=tuple(legs), charge=qb, blocks=blocks,
+             what="__init__", **kw)
+    da, db = D.dense_of(a), D.dense_of(b)
+    want = np.tensordot(da, db, axes=(axes_a, axes_b))
+    free_a = [i for i in range(nd) if i not in axes_a]
+    free_b = [i for i in range(len(legs)) if i not in axes_b]
+    for mode in ("blockwise", "fused", "auto"):
+        sig = f"fused-legs[{mode}]"
+        r = must(sr.tensordot, a, b, (axes_a, axes_b), mode=mode,
+                 preserve_array=True, what=sig)
+        ref = check_result_legs(r, a, b, free_a, free_b, sig)
+        require_valid(r, sig + ":invalid", "result")
+        for ax, i in enumerate(free_a):
+            require((r.indices[ax].subinfo is None)
+                    == (a.indices[i].subinfo is None), sig + ":fusedness",
+                    lambda: f"free leg {i} of a")
+        dense_equal(D.dense_of(r, ref=ref), want, sig + ":value", what=mode)
+    ch.label("fused-leg-contracted" if fpos in axes_a else "fused-leg-free")
+    ch.mark_nontrivial(gen.is_sparse(spec))
+
+
 LAWS = [
     Law("tensordot", law_tensordot, quick=2400, thorough=48000,
         doc="tensordot (all modes, axes forms, dispatch) == numpy.tensordot "
             "of the dense forms, placed in the operands' free-leg sectors"),
+    Law("fused_legs", law_fused_legs, quick=600, thorough=8000,
+        doc="operands carrying a pre-fused axis, contracted against a "
+            "partner on the conjugate index object or left free"),
     Law("matmul", law_matmul, quick=600, thorough=8000,
         doc="a @ b for ranks (1,1),(1,2),(2,1),(2,2) == dense product"),
     Law("einsum", law_einsum, quick=800, thorough=12000,
